@@ -60,8 +60,8 @@ Theorem C02_clean_answer_unchanged :
   up (q_name q) (q_qtype q) = Some r ->
   Forall (clean allow_eng block_eng c (request_settings c q)) (rs_answer r) ->
   let o := process allow_eng block_eng sb par ss srt c up q in
-  o_resp o = Some (mkResp (rs_rcode r) (map (strip_rr c) (rs_answer r)) (rs_soa r)) /\
-  o_orig_kept o = false /\ r_filtered (o_result o) = false /\ o_qname o = q_name q.
+  o_resp o = Some (with_answer r (map (strip_rr c) (rs_answer r))) /\
+  o_orig_kept o = false /\ r_filtered (o_result o) = false /\ o_qname o = resp_qname r (q_name q).
 Proof. exact clean_answer_unchanged. Qed.
 Print Assumptions C02_clean_answer_unchanged.
 
@@ -96,7 +96,7 @@ Theorem C02_rewritten_answer_not_filtered :
   verdict allow_eng block_eng sb par ss srt c q = Some res -> is_rewritten_cname res = true ->
   up (fqdn (r_canon res)) (q_qtype q) = Some r ->
   let o := process allow_eng block_eng sb par ss srt c up q in
-  o_resp o = Some (mkResp (rs_rcode r) (rec_cname c (q_name q) (r_canon res) :: rs_answer r) (rs_soa r)) /\
+  o_resp o = Some (with_answer r (rec_cname c (q_name q) (r_canon res) :: rs_answer r)) /\
   o_calls o = [(fqdn (r_canon res), q_qtype q)] /\ o_result o = res /\
   o_orig_kept o = false /\ o_qname o = q_name q.
 Proof. exact rewritten_cname_outcome. Qed.
@@ -405,3 +405,182 @@ Theorem C02_reenable_keeps_deadline_refuted :
     in_force t (run_now (prot_init true None) h) = true.
 Proof. exact reenable_keeps_deadline_refuted. Qed.
 Print Assumptions C02_reenable_keeps_deadline_refuted.
+
+From AGH Require Import Model.PipelineAnswer Proofs.PipelineAnswer.
+
+(** * Round 6: the whole upstream message (code, sections, flag, question)
+
+    [filter_response] (Model/PipelineAnswer.v) is filterDNSResponse as a
+    function of the whole message; the early return is a policy parameter
+    ([guard_as_written] = the code, [guard_noerror_only] = the seeded
+    variant).  The property speaks of the ANSWER section; the code reads the
+    answer section and nothing else of the message: records in the authority
+    or additional section are not examined (mirrored, not judged). *)
+
+(** For every two upstream answers that differ only in the response code
+    (NOERROR, NXDOMAIN, SERVFAIL, REFUSED, NOTIMP, any number) to a request
+    that reaches the upstream with its own question: delivered or replaced
+    alike, with the same result, the same upstream calls, the same question;
+    a replaced answer is replaced by the same blocking-mode answer; a
+    delivered one differs in the code only. *)
+Theorem C02_response_filtering_ignores_rcode :
+  forall allow_eng block_eng sb par ss srt c up up' q res r rc,
+  passes_request_stage allow_eng block_eng sb par ss srt c q res ->
+  up (q_name q) (q_qtype q) = Some r ->
+  up' (q_name q) (q_qtype q) = Some (set_rcode rc r) ->
+  let o := process allow_eng block_eng sb par ss srt c up q in
+  let o' := process allow_eng block_eng sb par ss srt c up' q in
+  o_orig_kept o' = o_orig_kept o /\ o_result o' = o_result o /\ o_calls o' = o_calls o /\
+  o_qname o' = o_qname o /\ o_logged o' = o_logged o /\
+  o_resp o' = if o_orig_kept o then o_resp o else option_map (set_rcode rc) (o_resp o).
+Proof. exact response_filtering_ignores_rcode. Qed.
+Print Assumptions C02_response_filtering_ignores_rcode.
+
+(** The same for any change outside the answer section that leaves the
+    question alone: the authority section, the additional section, the TC
+    flag, and any combination with the code ([outside_answer] is closed under
+    composition). *)
+Theorem C02_response_filtering_ignores_other_sections :
+  forall allow_eng block_eng sb par ss srt f c up up' q res r,
+  outside_answer f -> (forall r0 n, resp_qname (f r0) n = resp_qname r0 n) ->
+  passes_request_stage allow_eng block_eng sb par ss srt c q res ->
+  up (q_name q) (q_qtype q) = Some r ->
+  up' (q_name q) (q_qtype q) = Some (f r) ->
+  let o := process allow_eng block_eng sb par ss srt c up q in
+  let o' := process allow_eng block_eng sb par ss srt c up' q in
+  o_orig_kept o' = o_orig_kept o /\ o_result o' = o_result o /\ o_calls o' = o_calls o /\
+  o_qname o' = o_qname o /\ o_logged o' = o_logged o /\
+  o_resp o' = if o_orig_kept o then o_resp o else option_map f (o_resp o).
+Proof. exact response_filtering_ignores_outside_answer. Qed.
+Print Assumptions C02_response_filtering_ignores_other_sections.
+
+Theorem C02_sections_are_outside_the_answer :
+  (forall rc, outside_answer (set_rcode rc)) /\
+  (forall soa ns, outside_answer (set_authority soa ns)) /\
+  (forall ex, outside_answer (set_additional ex)) /\
+  (forall tc, outside_answer (set_tc tc)) /\
+  (forall k, outside_answer (set_qcase k)) /\
+  (forall f g, outside_answer f -> outside_answer g -> outside_answer (fun r => f (g r))).
+Proof.
+  exact (conj set_rcode_outside (conj set_authority_outside (conj set_additional_outside
+        (conj set_tc_outside (conj set_qcase_outside outside_compose))))).
+Qed.
+Print Assumptions C02_sections_are_outside_the_answer.
+
+(** The question inside the upstream answer written in another case: the
+    same verdict; a delivered message carries the upstream's question (the
+    client's up to ASCII case), the blocking-mode answer the client's own. *)
+Theorem C02_response_filtering_ignores_question_case :
+  forall allow_eng block_eng sb par ss srt c up up' q res r k,
+  passes_request_stage allow_eng block_eng sb par ss srt c q res ->
+  up (q_name q) (q_qtype q) = Some r ->
+  up' (q_name q) (q_qtype q) = Some (set_qcase k r) ->
+  let o := process allow_eng block_eng sb par ss srt c up q in
+  let o' := process allow_eng block_eng sb par ss srt c up' q in
+  o_orig_kept o' = o_orig_kept o /\ o_result o' = o_result o /\ o_calls o' = o_calls o /\
+  o_qname o' = (if o_orig_kept o then q_name q else resp_qname (set_qcase k r) (q_name q)) /\
+  o_resp o' = if o_orig_kept o then o_resp o else option_map (set_qcase k) (o_resp o).
+Proof. exact response_filtering_ignores_question_case. Qed.
+Print Assumptions C02_response_filtering_ignores_question_case.
+
+(** The function itself: whatever is changed outside the answer section,
+    the verdict and the result are the same and the message left behind
+    differs by exactly that change. *)
+Theorem C02_filter_response_reads_answer_section_only :
+  forall allow_eng block_eng c st r r',
+  rs_answer r = rs_answer r' ->
+  result_of (filter_response allow_eng block_eng c st r) = result_of (filter_response allow_eng block_eng c st r').
+Proof. exact filter_response_reads_answer_section_only. Qed.
+Print Assumptions C02_filter_response_reads_answer_section_only.
+
+Theorem C02_filter_response_outside_answer :
+  forall allow_eng block_eng f c st r,
+  outside_answer f ->
+  filter_response allow_eng block_eng c st (f r) = map_message f (filter_response allow_eng block_eng c st r).
+Proof. exact filter_response_outside_answer. Qed.
+Print Assumptions C02_filter_response_outside_answer.
+
+(** The pipeline's outcome for a forwarded question whose name nothing
+    matched is this function's verdict (protection on). *)
+Theorem C02_pipeline_outcome_is_filter_response :
+  forall allow_eng block_eng c up q res r,
+  r_reason res = NotFilteredNotFound -> protection_on c = true ->
+  after_upstream allow_eng block_eng c up q res r =
+  match filter_response allow_eng block_eng c (request_settings c q) r with
+  | Replaced fr _ =>
+      mkOutcome (Some (fst (filter_message c up (q_name q) (q_qtype q) fr))) [the_call q] fr true true (q_name q)
+  | Delivered r' => mkOutcome (Some r') [the_call q] res false true (resp_qname r (q_name q))
+  end.
+Proof. exact after_upstream_is_filter_response. Qed.
+Print Assumptions C02_pipeline_outcome_is_filter_response.
+
+(** A delivered message reaches the client with its code, authority and
+    additional sections, TC flag and question as the upstream sent them; the
+    answer section as it came or, when it was examined, without the IPv6
+    hints of its HTTPS records if AAAA is disabled. *)
+Theorem C02_delivered_message_unchanged :
+  forall allow_eng block_eng c st r r',
+  filter_response allow_eng block_eng c st r = Delivered r' ->
+  rs_rcode r' = rs_rcode r /\ rs_soa r' = rs_soa r /\ rs_ns r' = rs_ns r /\ rs_extra r' = rs_extra r /\
+  rs_tc r' = rs_tc r /\ rs_qcase r' = rs_qcase r /\
+  (rs_answer r' = rs_answer r \/
+   st_filtering st = true /\ rs_answer r' = map (strip_rr c) (rs_answer r) /\
+   Forall (clean allow_eng block_eng c st) (rs_answer r)).
+Proof. exact delivered_message_unchanged. Qed.
+Print Assumptions C02_delivered_message_unchanged.
+
+Theorem C02_delivered_message_identical_when_aaaa_enabled :
+  forall allow_eng block_eng c st r r',
+  c_aaaa_disabled c = false -> filter_response allow_eng block_eng c st r = Delivered r' -> r' = r.
+Proof. exact delivered_message_identical_when_aaaa_enabled. Qed.
+Print Assumptions C02_delivered_message_identical_when_aaaa_enabled.
+
+(** An offending record anywhere in the answer section replaces the answer
+    whatever the code, the other sections, the flag, the question's case. *)
+Theorem C02_offending_record_replaces_whatever_else :
+  forall allow_eng block_eng c st r pre rr0 post res,
+  st_filtering st = true ->
+  rs_answer r = pre ++ rr0 :: post ->
+  Forall (clean allow_eng block_eng c st) pre ->
+  check_rr allow_eng block_eng st (strip_rr c rr0) = Some res ->
+  forall f, outside_answer f ->
+  filter_response allow_eng block_eng c st (f r) =
+    Replaced res (f (with_answer r (map (strip_rr c) pre ++ strip_rr c rr0 :: post))).
+Proof. exact offending_record_replaces. Qed.
+Print Assumptions C02_offending_record_replaces_whatever_else.
+
+Theorem C02_replaced_iff_some_answer_record_offends :
+  forall allow_eng block_eng c st r,
+  is_replaced (filter_response allow_eng block_eng c st r) = true <->
+  st_filtering st = true /\ Exists (offending allow_eng block_eng c st) (rs_answer r).
+Proof. exact replaced_iff_some_record_offends. Qed.
+Print Assumptions C02_replaced_iff_some_answer_record_offends.
+
+(** The seeded early return (C02-L: nothing is examined unless the code is
+    NOERROR): it agrees with the code on every NOERROR answer, delivers every
+    other answer as it is, and the witness is NXDOMAIN with the CNAME chain to
+    a blocked name in the answer section. *)
+Theorem C02_noerror_only_guard_agrees_on_noerror :
+  forall allow_eng block_eng c st r,
+  rs_rcode r = rcSuccess ->
+  filter_response_with allow_eng block_eng guard_noerror_only c st r = filter_response allow_eng block_eng c st r.
+Proof. exact noerror_only_guard_agrees_on_noerror. Qed.
+Print Assumptions C02_noerror_only_guard_agrees_on_noerror.
+
+Theorem C02_noerror_only_guard_delivers_every_failed_answer :
+  forall allow_eng block_eng c st r,
+  rs_rcode r <> rcSuccess -> filter_response_with allow_eng block_eng guard_noerror_only c st r = Delivered r.
+Proof. exact noerror_only_guard_delivers_every_failed_answer. Qed.
+Print Assumptions C02_noerror_only_guard_delivers_every_failed_answer.
+
+Theorem C02_noerror_only_guard_refuted :
+  let a := match_request [] in
+  let b := match_request ex_block_rules in
+  let c := ex_cfg MDefault in
+  let st := request_settings c ex_query_other in
+  rs_rcode ex_nx_answer = rcNXDomain /\
+  st_filtering st = true /\ st_protection st = true /\
+  is_replaced (filter_response a b c st ex_nx_answer) = true /\
+  filter_response_with a b guard_noerror_only c st ex_nx_answer = Delivered ex_nx_answer.
+Proof. exact noerror_only_guard_refuted. Qed.
+Print Assumptions C02_noerror_only_guard_refuted.
